@@ -102,6 +102,9 @@ VARIANTS = {
     "int:2^31-1": 2147483647,
     "int:10^8": 100000000,
     "int:10^6": 1000000,
+    "string:numeral": Str(b"500"),
+    "string:real-numeral": Str(b"-1.5"),
+    "name:numeral": Name(b"12"),
     "real:overflow": Real("9" * 320 + ".5"),
 }
 SAMPLE = {"int": 7, "real": Real("2.5"), "string": Str(b"x"), "name": Name(b"Xq"), "array": [1, Name(b"A")], "dict": {b"K": 1}, "null": None, "bool": True}
